@@ -90,3 +90,13 @@ func sameList(a, b []any) bool {
 	}
 	return true
 }
+
+// decorate switches on every setting that has no bearing on content semantics (presentation options,
+// identifiers, auxiliary data, log level, a comparison function): list behaviour, nesting rules,
+// transfer, defragmentation and traversal must not depend on any of them.
+func decorate(s stackage.Stack) stackage.Stack {
+	s.SetParen(true).SetFold(true).SetLeadOnce(true).SetNoPadding(true).SetSymbol("vel").SetDelimiter(";").SetEncap(`"`, []string{"<", ">"})
+	s.SetID("decorated").SetCategory("cat").SetAuxiliary(stackage.Auxiliary{"k": 1}).SetLogLevel(stackage.LogLevel3, stackage.LogLevel5).SetLogger("off")
+	s.SetLessFunc(func(i, j int) bool { return i < j })
+	return s
+}
